@@ -10,7 +10,35 @@ from sympy.core.function import AppliedUndef
 from sympy.core.relational import Relational
 
 ANY = "ANY"
-VALUE_AWARE = False
+VALUE_AWARE = False          # C06: a term whose canonical value is literally 0/+-oo/nan is ANY
+STRICT_FUNCTION_ARGS = True  # C01: arguments of exp/trig/hyperbolic must be dimensionless (C06: the library allows them)
+
+
+def configure(value_aware=None, strict_function_args=None):
+    global VALUE_AWARE, STRICT_FUNCTION_ARGS  # pylint: disable=global-statement
+    if value_aware is not None:
+        VALUE_AWARE = value_aware
+    if strict_function_args is not None:
+        STRICT_FUNCTION_ARGS = strict_function_args
+
+
+def canonical_any(e) -> bool:
+    """value-aware ANY: with quantities replaced by their scale factors (symbols left symbolic, SymPy auto-evaluation
+    only) the sub-expression is literally zero, infinite or NaN"""
+    try:
+        qs = {q: sympy.sympify(q.scale_factor) for q in e.atoms(SymQuantity)}
+        v = e.xreplace(qs) if qs else e
+    except Exception:  # pylint: disable=broad-except
+        return False
+    if v in (S.Infinity, S.NegativeInfinity, S.NaN):
+        return True
+    if v.is_zero is True and v.is_number:
+        return True
+    # a product with a literally infinite factor and no zero factor is an infinite term (oo/f(x))
+    if isinstance(v, sympy.Mul) and any(a in (S.Infinity, S.NegativeInfinity) for a in v.args) \
+            and not any(a.is_zero for a in v.args):
+        return True
+    return False
 
 
 class Inhomogeneous(Exception):
@@ -73,6 +101,19 @@ def deq(a, b):
     return True
 
 
+def deq_num(a, b, tol=1e-9):
+    """numeric comparison of exponent dicts (float exponents)"""
+    if a == ANY or b == ANY:
+        return True
+    for k in set(a) | set(b):
+        d = sympy.N(sympy.sympify(a.get(k, 0)) - sympy.sympify(b.get(k, 0)))
+        if not d.is_number:
+            return deq(a, b)
+        if abs(complex(d)) > tol:
+            return False
+    return True
+
+
 def is_dimless(a):
     return a == ANY or len(a) == 0
 
@@ -89,8 +130,35 @@ STRICT_DIMLESS_ARG = (
 )
 
 
+NONDIRECT_ANY_USED = False  # set when an ANY decision relied on zero-ness the library cannot see (not a direct factor)
+
+
+def direct_any(a) -> bool:
+    """the zero/infinite value is visible without evaluation: an any-valued number or quantity, or a product with such a
+    direct factor"""
+    def leaf_any(x):
+        if isinstance(x, SymQuantity):
+            return canonical_any(x)
+        return x.is_Number and canonical_any(x)
+    if leaf_any(a):
+        return True
+    if isinstance(a, sympy.Mul):
+        return any(leaf_any(f) for f in a.args)
+    return False
+
+
 def common(dims, node, kind):
+    global NONDIRECT_ANY_USED  # pylint: disable=global-statement
     ref = ANY
+    if VALUE_AWARE and hasattr(node, "args"):
+        new = []
+        for a, d in zip(node.args, dims):
+            if canonical_any(a):
+                if not direct_any(a):
+                    NONDIRECT_ANY_USED = True
+                d = ANY
+            new.append(d)
+        dims = new
     for d in dims:
         if d == ANY:
             continue
@@ -131,7 +199,7 @@ def refdim(e, stats=None):
     if isinstance(e, (sympy.NumberSymbol,)) or e is S.ImaginaryUnit:
         return {}
     if isinstance(e, SymQuantity):
-        if VALUE_AWARE and e.scale_factor in (S.Zero, S.Infinity, S.NegativeInfinity, S.NaN):
+        if VALUE_AWARE and canonical_any(e):
             return ANY
         d = getattr(e, "dimension", None)
         return deps(d if d is not None else SI.get_quantity_dimension(e))
@@ -165,11 +233,16 @@ def refdim(e, stats=None):
             raise Inhomogeneous("exponent", e, f"exponent has dimension {fmt(x)}")
         if b == ANY or len(b) == 0:
             return b if b == ANY else {}
-        return dpow(b, e.exp)
+        ex = e.exp
+        if ex.atoms(SymQuantity):  # dimensionless quantities in an exponent count with their value
+            ex = ex.xreplace({q: sympy.sympify(q.scale_factor) for q in ex.atoms(SymQuantity)})
+        return dpow(b, ex)
     if isinstance(e, sympy.Add):
         return common([refdim(a, stats) for a in e.args], e, "sum")
     if isinstance(e, (sympy.Max, sympy.Min)):
         return common([refdim(a, stats) for a in e.args], e, "minmax")
+    if isinstance(e, (sympy.conjugate, sympy.re, sympy.im)) and not STRICT_FUNCTION_ARGS:
+        raise Unsupported("re/im/conjugate (not covered by the C06 statement)")
     if isinstance(e, (sympy.Abs, sympy.conjugate, sympy.re, sympy.im)):
         return refdim(e.args[0], stats)
     if isinstance(e, sympy.Derivative):
@@ -208,7 +281,7 @@ def refdim(e, stats=None):
     if isinstance(e, STRICT_DIMLESS_ARG):
         for a in e.args:
             d = refdim(a, stats)
-            if not is_dimless(d):
+            if STRICT_FUNCTION_ARGS and not is_dimless(d):
                 raise Inhomogeneous("function-arg", e, f"argument has dimension {fmt(d)}")
         return {}
     if isinstance(e, AppliedUndef):
